@@ -120,6 +120,12 @@ func init() {
 
 const deadRef = "https://127.0.0.1:1/closed"
 
+/*
+values of kilobytes and lists of hundreds: for the predicate-only ops; the groups whose ops the
+list-based Lean model recomputes (present) switch them off while they generate
+*/
+var fuzzLarge = true
+
 func fuzzValue(r *rand.Rand, g *docGen, key string, depth int) any {
 	/* mostly the right shape for the key, sometimes anything */
 	if r.Intn(6) == 0 || depth > 3 {
@@ -167,7 +173,7 @@ func fuzzValue(r *rand.Rand, g *docGen, key string, depth int) any {
 	case "mediaType":
 		return pick(r, []string{"text/html", "text/markdown", "text/gemini", "text/plain", "text/html; charset=utf-8", "application/json", "bogus", ""})
 	case "name", "preferredUsername":
-		if r.Intn(25) == 0 {
+		if fuzzLarge && r.Intn(25) == 0 {
 			/* a name of kilobytes: one word, or many */
 			return strings.Repeat(pick(r, []string{"x", "漢", "name ", "a.b "}), 500+r.Intn(2500))
 		}
@@ -178,7 +184,7 @@ func fuzzValue(r *rand.Rand, g *docGen, key string, depth int) any {
 		return pick(r, []any{nil, "https://h.example/x", "https://h.example/x", "https://127.0.0.1:1/self", "://", 5})
 	case "attributedTo", "audience", "actor":
 		actor := map[string]any{"type": "Person", "name": g.text(2), "preferredUsername": "u"}
-		if r.Intn(30) == 0 {
+		if fuzzLarge && r.Intn(30) == 0 {
 			many := []any{}
 			for i := 20 + r.Intn(100); i > 0; i-- {
 				many = append(many, actor)
@@ -188,7 +194,7 @@ func fuzzValue(r *rand.Rand, g *docGen, key string, depth int) any {
 		return pick(r, []any{actor, []any{actor, deadRef, 7}, deadRef, []any{}})
 	case "attachment":
 		n := r.Intn(4)
-		if r.Intn(25) == 0 {
+		if fuzzLarge && r.Intn(25) == 0 {
 			n = 50 + r.Intn(250) // hundreds of attachments: numbers of three digits
 		}
 		l := []any{}
